@@ -59,13 +59,17 @@ func (b *vhC20Backend) query(sql string) {
 		return
 	}
 	b.sets++
-	if b.reject != nil && b.reject(sql) {
+	bogus := strings.Contains(sql, "BOGUS")
+	if bogus || (b.reject != nil && b.reject(sql)) {
 		for _, a := range strings.Split(sql[4:], ",") {
 			if kv := strings.SplitN(strings.TrimSpace(a), " = ", 2); len(kv) == 2 && (kv[1] == "DEFAULT" || kv[1] == "NULL") {
 				b.lost[kv[0]] = true
 			}
 		}
 		msg := "Variable 'x' can't be set to the value of 'y'"
+		if bogus {
+			msg = "Variable 'sql_mode' can't be set to the value of 'BOGUS'"
+		}
 		b.reply(append([]byte{0xff, 0xcf, 0x04, '#', '4', '2', '0', '0', '0'}, msg...)) // 1231
 		return
 	}
@@ -106,7 +110,7 @@ func (*vhC20Backend) SetDeadline(time.Time) error      { return nil }
 func (*vhC20Backend) SetReadDeadline(time.Time) error  { return nil }
 func (*vhC20Backend) SetWriteDeadline(time.Time) error { return nil }
 
-//verif:harness prop=C20 maxpaths=1500000 bounds="two clients sharing one pooled backend connection (a real DirectConnection talking to a modelled MySQL session); k=3 (quick) / 4 (thorough) steps, each: a client changes one of its settings (sql_select_limit or group_concat_max_len to 1 or 2, back to default, character set utf8mb4 / latin1, or nothing) and runs a statement through the real InitializeSessionVariables + Execute; the backend may reject any SET statement; after a rejected SET the client's variables are reset as the proxy does and the statement is reported failed"
+//verif:harness prop=C20 maxpaths=1500000 bounds="two clients sharing one pooled backend connection (a real DirectConnection talking to a modelled MySQL session); k=3 (quick) / 4 (thorough) steps, each: a client changes one of its settings (sql_select_limit or group_concat_max_len to 1 or 2, back to default, character set utf8mb4 / latin1, sql_mode to an invalid value) and runs a statement through the real InitializeSessionVariables + Execute; the backend may reject any SET statement; after a rejected SET the client's variables are reset as the proxy does and the statement is reported failed"
 func Harness_C20_SharedConnection() {
 	be := &vhC20Backend{vars: map[string]string{}, charset: "utf8mb4", lost: map[string]bool{}}
 	be.reject = func(sql string) bool { return vs.Choice("backendRejectsSet", 2) == 1 }
@@ -122,6 +126,7 @@ func Harness_C20_SharedConnection() {
 	}
 	names := []string{"sql_select_limit", "group_concat_max_len"}
 	rejected := false
+	var rejectedSettings map[string]string // the settings of the statement whose SET was rejected last
 	for step := 0; step < vs.Pick(3, 4); step++ {
 		ci := 0
 		if step > 0 { // the two clients are interchangeable: the first step is client 0's
@@ -136,6 +141,9 @@ func Harness_C20_SharedConnection() {
 		case a < 6: // SET name = DEFAULT
 			c.vars.Delete(names[a-4])
 			delete(c.want, names[a-4])
+		case a == 7: // SET sql_mode = an invalid value (the backend rejects it with error 1231)
+			vs.Assert(c.vars.Set("sql_mode", "BOGUS") == nil, "C20/fixture")
+			c.want["sql_mode"] = "BOGUS"
 		case a == 6: // SET NAMES
 			if c.charset == "utf8mb4" {
 				c.charset = "latin1"
@@ -148,6 +156,11 @@ func Harness_C20_SharedConnection() {
 		err := InitializeSessionVariables(pc, c.charset, 0, c.vars)
 		if err != nil {
 			rejected = true
+			rejectedSettings = map[string]string{"charset": c.charset}
+			for k, v := range c.want {
+				rejectedSettings[k] = v
+			}
+			delete(c.want, "sql_mode") // the proxy drops an invalid sql_mode from the client's variables
 			// the proxy has reset the client's variables: everything not on the allow list is dropped
 			// (both names used here are on it)
 			continue
@@ -160,7 +173,11 @@ func Harness_C20_SharedConnection() {
 		got := be.seen[before]
 		// known finding: after a rejected SET the connection's record is ahead of the backend, so a
 		// statement whose settings equal the record is sent without any SET
-		vs.TagB("noSetSentAfterARejectedSet", rejected && be.sets == setsBefore)
+		sameAsRejected := rejected && rejectedSettings["charset"] == c.charset && len(rejectedSettings) == len(c.want)+1
+		for k, v := range c.want {
+			sameAsRejected = sameAsRejected && rejectedSettings[k] == v
+		}
+		vs.TagB("noSetSentAfterARejectedSet", rejected && be.sets == setsBefore && sameAsRejected)
 		vs.Assert(got["charset"] == c.charset, "C20/statement-runs-with-the-client's-character-set")
 		for _, n := range names {
 			w, set := c.want[n]
